@@ -227,6 +227,7 @@ pub fn relation(view: &View, world: &World, op: &Op, detached_by: &HashMap<H, K>
     let pa = place_of(view, world, op.a);
     let a_state = match pa {
         Place::Live(0, 0) => "a=root".to_string(),
+        Place::Live(mi, ni) if view.models[mi].1.nodes[ni].name == autosar_data::ElementName::ShortName => "a=short-name".to_string(),
         Place::Live(0, _) => "a=live".to_string(),
         Place::Live(_, 0) => "a=foreign-root".to_string(),
         Place::Live(_, _) => "a=foreign".to_string(),
